@@ -38,6 +38,22 @@ Theorem busy_rejects_concurrent : forall st a b, busy st = false ->
 Proof. exact busy_rejects_conc_all. Qed.
 Print Assumptions busy_rejects_concurrent.
 
+(* The same for a call that is parked on back-pressure (notification buffer full): it keeps the
+   guard for the whole wait, so every call attempted meanwhile -- for the same height, the next
+   one, anything -- is rejected and changes nothing; after the subscriber's release the parked
+   call ends exactly as if it had been made alone at that point. *)
+Theorem parked_call_rejects_others : forall st a bs, busy st = false -> parks st a = true ->
+  step st (OPark a bs) =
+  (fst (step (set_held st 0) (OCall a)),
+   map (fun _ => {| p_res := Some RSemaphore; p_db := obs_of st; p_evs := [] |}) bs ++
+   snd (step (set_held st 0) (OCall a))).
+Proof. exact parked_rejects_all. Qed.
+Print Assumptions parked_call_rejects_others.
+
+Theorem parks_meaning : forall st c, wf_call c -> parks st c = parksb (cap st) (obs_of st) c.
+Proof. exact parks_spec. Qed.
+Print Assumptions parks_meaning.
+
 (* Over all histories from any initial database without blocks (orphan consensus /
    transaction rows allowed): the announced heights are exactly the heights of the successful
    calls, in the same order; successive successful heights differ by exactly one; and the event
